@@ -47,7 +47,8 @@ CHECK = Check(
         "both sides carry target labels only (the manager filters estimates and GTs by target label before matching), except "
         "that estimates may be unknown-labelled when unknown is not a target (the filter's documented relaxation): such an "
         "estimate paired with a target-labelled ground truth counts as a reported, wrong result of that ground truth's label",
-        "no false_positive / traffic_light (non-classification) labels",
+        "no traffic_light (non-classification) labels; a ground truth may be annotated false_positive (1 frame in 6): then only "
+        "the pairing is asserted, the counting of a pair with it is not defined by the statement",
         "the fate of unpaired estimates (GT-less result or dropped) is not asserted",
         "undefined scores (zero denominator; F1 when precision+recall=0 or one of them undefined) are accepted as returned",
         "scores compared with 1e-9 absolute tolerance; [0,1] means [-1e-9, 1+1e-9]",
@@ -99,8 +100,8 @@ def _lib():
             Obj=DynamicObject2D,
             cam={c: FrameID.from_value(c) for c in CAMS4},
             lab={
-                "tl": {n: TrafficLightLabel(n) for n in ALL_LABELS["tl"]},
-                "autoware": {n: AutowareLabel(n) for n in ALL_LABELS["autoware"]},
+                "tl": {n: TrafficLightLabel(n) for n in ALL_LABELS["tl"] + ["false_positive"]},
+                "autoware": {n: AutowareLabel(n) for n in ALL_LABELS["autoware"] + ["false_positive"]},
             },
             divide=divide_objects,
             divide_num=divide_objects_to_num,
@@ -331,7 +332,8 @@ def _counts(targets, E, G, rows):
         if j is not None and G[j][2] == lab:
             out[lab][1] += 1
     for t in G:
-        out[t[2]][2] += 1
+        if t[2] in out:  # (a `false_positive`-annotated ground truth belongs to no target label)
+            out[t[2]][2] += 1
     return out
 
 
@@ -426,6 +428,11 @@ def small_instances(ctx, d):
     out = _match_and_check(ctx, fam, uf, E, G)
     if out is None or out[3] is None:
         return
+    if any(t[2] == "false_positive" for t in G):
+        # pairing is defined for such frames (an FP-annotated ground truth is never label-equal to an estimate); how a pair
+        # with it should be COUNTED is not said by the statement (the library counts it label-correct): scores not asserted
+        ctx.cls("has_fp_annotated_gt(pairing only)")
+        return
     est, gt, res, rows = out
     _score_frame(ctx, fam, d["targets"], E, G, gt, res, rows)
 
@@ -445,6 +452,10 @@ def _frame(draw, labels, cams, uuids, max_n, stray=None):
     gslots = draw(st.permutations(slots))[:n_gt]
     lab = st.sampled_from(labels)
     G = [[c, u, draw(lab)] for (c, u) in gslots]
+    if G and draw(st.integers(0, 5)) == 0:
+        # a ground truth annotated `false_positive` (something that must not be reported): it has no equally-labelled
+        # estimate, so it can only be paired through its uuid
+        G[draw(st.integers(0, len(G) - 1))][2] = "false_positive"
     mode = draw(st.sampled_from(["mixed", "mixed", "mixed", "mixed", "faithful", "labels_only", "uuids_only"]))
     menu = {
         "mixed": ["same", "same", "flip", "flip", "move", "move", "flip_move", "camera", "drop"],
@@ -467,6 +478,8 @@ def _frame(draw, labels, cams, uuids, max_n, stray=None):
         act = draw(st.sampled_from(menu))
         if act == "drop":
             continue
+        if l == "false_positive":
+            l = draw(lab)  # estimates never carry the annotation-only label
         if act in ("flip", "flip_move"):
             l = stray if stray is not None and draw(st.integers(0, 3)) == 0 else other(labels, l)
         if act in ("move", "flip_move"):
@@ -520,6 +533,9 @@ def random_instances(ctx, d):
     out = _match_and_check(ctx, fam, uf, E, G)
     if out is None or out[3] is None:
         return
+    if any(t[2] == "false_positive" for t in G):
+        ctx.cls("has_fp_annotated_gt(pairing only)")  # see small_instances
+        return
     est, gt, res, rows = out
     _score_frame(ctx, fam, d["targets"], E, G, gt, res, rows)
 
@@ -536,6 +552,11 @@ def metrics_scenes(ctx, d):
     all_num = {t: 0 for t in tl}
     total = {t: [0, 0, 0] for t in targets}
     pooled_res, pooled_gt = [], 0
+    if any(t[2] == "false_positive" for fr in d["frames"] for t in fr["gt"]):
+        for fr in d["frames"]:
+            _match_and_check(ctx, fam, uf, fr["est"], fr["gt"])
+        ctx.cls("has_fp_annotated_gt(pairing only)")
+        return
     for fr in d["frames"]:
         E, G = fr["est"], fr["gt"]
         out = _match_and_check(ctx, fam, uf, E, G)
